@@ -40,7 +40,7 @@ def normalise(l, headclip, tailclip):
     return Lin(c2, out.const)
 
 
-def run_protocol(ctx, relpath, cls, extra_atoms, atom_space):
+def run_protocol(ctx, relpath, cls, extra_atoms, atom_space, negations=False):
     f = ctx.fn(relpath, f'{cls}.identify_site')
     results = []
     for combo in itertools.product(*[[(k, v) for v in vals] for k, vals in atom_space]):
@@ -52,6 +52,11 @@ def run_protocol(ctx, relpath, cls, extra_atoms, atom_space):
             'R1 is None': False, 'R1.is_unmapped': False, 'R1 is None or R1.is_unmapped': False,
         }
         atoms.update({k: (a[v] if isinstance(v, str) else v) for k, v in extra_atoms.items()})
+        if negations:
+            for k, v in list(atoms.items()):
+                if isinstance(v, bool) and ' == ' in k:
+                    atoms.setdefault(k.replace(' == ', ' != '), not v)
+                atoms.setdefault(f'not {k}', not v) if isinstance(v, bool) and not k.startswith('not ') else None
         se = SymExec(atoms, SYMBOLS, record=('set_site',))
         states = se.run(f.body)
         ctx.counters['paths_enumerated'] += len(states)
@@ -149,31 +154,49 @@ def r2(ctx):
     if not ok:
         return
     fwn, rvn = fw[0], rv[0]
-    tests = []
-    for s in walk_no_nested(f):
-        if isinstance(s, ast.If) and ('R1.is_reverse' in src(s.test)) and (fwn in names_in(s.test) or rvn in names_in(s.test)) and 'set_site' in ''.join(src(x) for x in s.body) \
-                and not any(isinstance(x, ast.If) for x in s.body):
-            tests.append(s)
-    pairs = {}
-    for s in tests:
-        t = src(s.test)
-        rev = 'not R1.is_reverse' not in t
-        shift = 'allow_cycle_shift' in t
-        pairs[(shift, rev)] = t
-    exp = {
-        (False, False): f"{fwn} == 'CATG'", (False, True): f"{rvn} == 'CATG'",
-        (True, False): f"{fwn}.startswith('ATG')", (True, True): f"{rvn}.endswith('CAT')",
-    }
-    for key, frag in exp.items():
-        t = pairs.get(key)
-        ok = t is not None and frag in t and (fwn if key[1] else rvn) not in names_in(ast.parse(t, mode='eval'))
-        ctx.emit('C09-R2', ok, FRAG_NLA, f, f'{"cycle-shift" if key[0] else "main"} arm, {"reverse" if key[1] else "forward"} strand tests `{frag}`' if ok else
-                 f'{"cycle-shift" if key[0] else "main"} arm, {"reverse" if key[1] else "forward"} strand: guard `{t}` is not the mirrored motif test `{frag}`',
-                 key=f'NlaIII:guard-mirror:{key}', what='NlaIII: motif test of one strand is not the mirror image of the other strand')
-    # check_motif makes the motif test optional on both strands in the same way
-    both = [pairs.get((False, False), ''), pairs.get((False, True), '')]
-    ok = all('not self.check_motif or' in t for t in both)
-    ctx.emit('C09-R2', ok, FRAG_NLA, f, 'check_motif relaxes the motif test symmetrically on both strands', key='NlaIII:check-motif-symmetric', nontrivial=False)
+    # decision table of the arm selection: for each strand and every valuation of (check_motif, allow_cycle_shift, full motif at the start
+    # of either window, shifted motif at either window) the arm taken - read off the recorded site (offset from the anchor, valid flag) -
+    # must be: main iff (motif not checked or the OWN strand's window shows CATG); else cycle-shift iff allowed and the OWN strand's window
+    # shows the shifted motif; else fallback.  The forward strand looks at the forward window only and vice versa.
+    space = [('REV', (False, True)), ('NOUMI', (True,)), ('HEADCLIP', (False,)), ('TAILCLIP', (False,)),
+             ('CHK', (False, True)), ('SHIFT', (False, True)), ('FC', (False, True)), ('RC', (False, True)), ('FA', (False, True)), ('RA', (False, True))]
+    extra = {'self.no_overhang': False, 'self.check_motif': 'CHK', 'self.allow_cycle_shift': 'SHIFT',
+             f"{fwn} == 'CATG'": 'FC', f"{rvn} == 'CATG'": 'RC', f"{fwn}.startswith('ATG')": 'FA', f"{rvn}.endswith('CAT')": 'RA'}
+    f2, res = run_protocol(ctx, FRAG_NLA, 'NlaIIIFragment', extra, space, negations=True)
+    by = {}
+    for r in res:
+        a_ = r['atoms']
+        if (a_['FC'] and a_['FA']) or (a_['RC'] and a_['RA']):
+            continue        # CATG neither starts with ATG nor ends with CAT
+        off = r['site'] - anchor(a_) if isinstance(r['site'], Lin) else None
+        arm = 'fallback' if r['valid'] is False else {('0', False): 'main', ('-4', True): 'main', ('-1', False): 'cycle-shift', ('-3', True): 'cycle-shift'}.get((str(off) if off is not None else None, a_['REV']), f'?{off}')
+        by.setdefault(tuple(sorted(a_.items())), set()).add(arm)
+    wrong = {}
+    n = 0
+    for key, arms in by.items():
+        a_ = dict(key)
+        own_full, own_shift = (a_['RC'], a_['RA']) if a_['REV'] else (a_['FC'], a_['FA'])
+        want = 'main' if (not a_['CHK'] or own_full) else 'cycle-shift' if (a_['SHIFT'] and own_shift) else 'fallback'
+        n += 1
+        if arms != {want}:
+            wrong.setdefault((want, a_['REV']), []).append((a_, sorted(arms)))
+    ctx.counters['abstract_cases'] += n
+    if n < 72:
+        raise AnalysisError(f'C09-R2: only {n} arm-selection cases were evaluated (idiom not recognised)')
+    for key in ((False, False), (False, True), (True, False), (True, True)):
+        want = 'cycle-shift' if key[0] else 'main'
+        w_ = wrong.get((want, key[1]), []) + ([] if key[0] else []) 
+        # cases that must NOT take this arm but do are reported under the arm they wrongly take
+        also = [(a_, arms) for (wa, rv_), lst in wrong.items() for a_, arms in lst if rv_ == key[1] and want in arms and wa != want]
+        bad = w_ + also
+        strand = 'reverse' if key[1] else 'forward'
+        ctx.emit('C09-R2', not bad, FRAG_NLA, f, f'{want} arm, {strand} strand: taken exactly when the {strand} window shows the {"shifted" if key[0] else "full"} motif' + ('' if not key[0] else ' and cycle shift is allowed') if not bad
+                 else f'{want} arm, {strand} strand: selection is not the mirrored motif test: case { {k: v for k, v in bad[0][0].items() if k in ("CHK", "SHIFT", "FC", "RC", "FA", "RA")} } takes {bad[0][1]}',
+                 key=f'NlaIII:guard-mirror:{key}', witness={'case': bad[0][0], 'arms': bad[0][1]} if bad else None, what='NlaIII: motif test of one strand is not the mirror image of the other strand')
+    fbad = wrong.get(('fallback', False), []) + wrong.get(('fallback', True), [])
+    fbad = [x for x in fbad if x[1] not in (['main'], ['cycle-shift'])]
+    ctx.emit('C09-R2', not fbad, FRAG_NLA, f, f'arm selection decided on {n} cases; the fallback is taken exactly when neither arm applies', key='NlaIII:check-motif-symmetric', nontrivial=False)
+    ctx.exhaustive['C09-R2'] = True
 
 
 @rule('C09', 'C09-R3', 'a fragment without the motif at its start is rejected, not assigned a site: on the fallback path the site is '
